@@ -218,16 +218,60 @@ def run_check(check, case, rec):
         rec.samples["first_cases"] = []
     if len(rec.samples["first_cases"]) < 2:
         rec.samples["first_cases"].append(case)
+    before = _process_state()
     try:
         fails = check(case, rec)
     except HarnessError:
         raise
     except Exception as exc:
+        leaked = _restore_process_state(before)
+        if leaked and isinstance(exc, Warning):
+            # the code under test turned warnings into errors for the whole process; the first victim was the harness itself
+            return [Failure("process_state_changed:%s" % "+".join(leaked), "then %r was raised\n%s" % (exc, traceback.format_exc()[-800:]))]
         where = _raised_inside_implementation(exc)
         if where is not None:
             return [Failure("implementation_raised:%s@%s" % (type(exc).__name__, where), "%r\n%s" % (exc, traceback.format_exc()[-1200:]))]
         raise HarnessError("check function raised on case %s\n%s" % (dumps(case)[:1500], traceback.format_exc()))
-    return fails or []
+    leaked = _restore_process_state(before)
+    fails = list(fails or [])
+    if leaked:
+        # running a model must not reconfigure the interpreter for whatever runs next in the same process
+        fails.append(Failure("process_state_changed:%s" % "+".join(leaked), "state differing after the case: %s" % ", ".join(leaked)))
+    return fails
+
+
+def _process_state():
+    import os
+    import warnings
+
+    import numpy
+
+    return {"warnings_filters": list(warnings.filters), "numpy_errstate": dict(numpy.geterr()), "cwd": os.getcwd()}
+
+
+def _restore_process_state(before):
+    """-> names of the pieces of process-wide state that differ from `before` (and puts them back)."""
+    import os
+    import warnings
+
+    import numpy
+
+    leaked = []
+    if list(warnings.filters) != before["warnings_filters"]:
+        leaked.append("warnings_filters")
+        warnings.filters[:] = before["warnings_filters"]
+        if hasattr(warnings, "_filters_mutated"):
+            warnings._filters_mutated()
+    if dict(numpy.geterr()) != before["numpy_errstate"]:
+        leaked.append("numpy_errstate")
+        numpy.seterr(**before["numpy_errstate"])
+    try:
+        if os.getcwd() != before["cwd"]:
+            leaked.append("cwd")
+            os.chdir(before["cwd"])
+    except OSError:
+        os.chdir(before["cwd"])
+    return leaked
 
 
 def drive(ctx, rec, part, strategy, check, n_examples, max_novel=4, shrink=True, tag=None):
